@@ -215,10 +215,20 @@ def resource_config_tables():
         if isinstance(node, ast.ClassDef) and node.name == 'FastTypedDict':
             body = [ast.unparse(s) for s in node.body
                     if not (isinstance(s, ast.Expr) and isinstance(s.value, ast.Constant))]
-            if [ast.unparse(b) for b in node.bases] == ['ru.TypedDict'] and body == ['_deep = False']:
+            # accepted forms (anything else fails closed): the plain class, or the class whose constructor
+            # additionally gives the instance its own shallow copies of the list/dict defaults it still uses --
+            # both are, value-wise, "TypedDict initialised from _defaults, then from_dict, then kwargs"
+            own_copies = ("def __init__(self, from_dict=None, **kwargs):\n"
+                          "    super().__init__(from_dict=from_dict, **kwargs)\n"
+                          "    for key, val in self._defaults.items():\n"
+                          "        if isinstance(val, (list, dict)) and self.get(key) is val:\n"
+                          "            self[key] = copy.copy(val)")
+            if [ast.unparse(b) for b in node.bases] == ['ru.TypedDict'] and \
+               body in (['_deep = False'], ['_deep = False', own_copies]):
                 ok = True
     if not ok:
-        fail('utils/misc.py: FastTypedDict is not `class FastTypedDict(ru.TypedDict): _deep = False`')
+        fail('utils/misc.py: FastTypedDict is neither `class FastTypedDict(ru.TypedDict): _deep = False` nor that '
+             'class with the constructor that copies its default containers')
     return schemas, defaults, endpoints
 
 
